@@ -151,8 +151,10 @@ def run(chk):
     else:
         chk.ob("R-IDX", c, "one np.take through the index map", False, derived="%d" % len(tk), loc=fi.loc(), inconclusive=True)
     det = [e for e in r.events("call", GP) if e.callee.endswith("determine_indices_of_peaks_for_cleaned_array")]
+    cleaning = [e for e in r.events("call", GP) if e.callee.endswith(".clean_out_non_changing")]
     chk.ob("R-IDX", c + "{detector input}", "the detector runs on the cleaned array", len(det) == 1 and
-           "ret:clean_out_non_changing#0" in det[0].bound["values"].tags, derived="%d detector call(s)" % len(det), loc=det[0].loc if det else fi.loc(), inconclusive=not det)
+           "ret:clean_out_non_changing#0" in det[0].bound["values"].tags, derived="%d detector call(s), %d call(s) of the plateau cleaner" % (len(det), len(cleaning)), loc=det[0].loc if det else fi.loc(),
+           inconclusive=not det or not cleaning)       # plateaus removed some other way: a design this rule does not know
     expect(chk, "R-IDX", c + ".result", r.ret, deg={R: 0}, parity={R: "even"}, sign="nonneg", dtype="int", loc=fi.loc())
     # the cleaning routine: on every return path, cleaned == np.take(values, map) for the map it returns
     qc = PK + "clean_out_non_changing"
